@@ -454,9 +454,8 @@ def template(frames, pos, cfg, cuts=None, extra_reads=1):
 
 def gen_scripts(ctx):
     rng = ctx.rng
-    scripts = []  # (label, script)
     counter = [0]
-    maxlen = ctx.pick(4, 5)
+    maxlen = ctx.pick(4, 6)
 
     # 1. every class sequence up to the length bound x every injection position
     cfg_i = 0
@@ -470,17 +469,10 @@ def gen_scripts(ctx):
             if n <= 2:
                 seqs_short.append((cfg, frames))
             for pos in POSITIONS:
-                scripts.append((f"seq-len{n}:{pos}", template(frames, pos, cfg)))
+                yield ((f"seq-len{n}:{pos}", template(frames, pos, cfg)))
     ctx.exhaustive_parts.append(
         f"all {sum(len(CLASSES) ** n for n in range(maxlen + 1))} sequences of length <= {maxlen} over the gateway alphabet "
         f"{CLASSES} (variants of codes / echoed data / address pairs seeded) x injection position {POSITIONS}")
-    if not ctx.quick or ctx.widened:
-        for _ in range(ctx.pick(0, 30000)):
-            cfg = rng.choice(CFGS)
-            counter[0] = 0
-            frames = [mk_frame(rng.choice(CLASSES), rng, cfg, counter) for _ in range(6)]
-            scripts.append(("seq-len6-sampled:" + (p := rng.choice(POSITIONS)), template(frames, p, cfg)))
-
     # 2. every single split point of the byte stream (all sequences of length <= 2 + hand-picked longer ones)
     picked = [
         ["dT", "a+", "dT"], ["al", "a+"], ["dO", "al", "dT", "a+"], ["un", "dT", "al", "a-"], ["a+", "al", "al", "dT"],
@@ -496,7 +488,7 @@ def gen_scripts(ctx):
         for k in range(1, L):
             for pos in POSITIONS:
                 d0 = 300 if pos in ("ack", "read") else 10
-                scripts.append((f"single-split:{pos}", template(frames, pos, cfg, cuts=[[k, d0 + 40]])))
+                yield ((f"single-split:{pos}", template(frames, pos, cfg, cuts=[[k, d0 + 40]])))
                 n_split += 1
     ctx.exhaustive_parts.append(
         f"every single split point of the byte stream of all {len(seqs_short)} sequences of length <= 2 and {len(picked)} "
@@ -516,7 +508,7 @@ def gen_scripts(ctx):
             ks = sorted(rng.sample(range(1, L), min(L - 1, rng.randint(2, 6))))
         step = rng.choice([1, 7, 40])
         cuts = [[k, d0 + step * (i + 1)] for i, k in enumerate(ks)]
-        scripts.append((f"multi-split:{pos}", template(frames, pos, cfg, cuts=cuts)))
+        yield ((f"multi-split:{pos}", template(frames, pos, cfg, cuts=cuts)))
 
     # 4. timing relative to the acknowledgement time and the caller's timeout
     src, tgt, _ = CFGS[0]
@@ -524,18 +516,18 @@ def gen_scripts(ctx):
     for d in (1, 1999, 2001, 2600):
         for tmo in (500, 1500, 5000, 2500):
             for pre in ([], [["diag", tgt, src, "6201"]], [["alive", ""]], [["diag", tgt + 1, src, "7f01"]]):
-                scripts.append(("timing:write", {"cfg": list(CFGS[0]), "ops": [
+                yield (("timing:write", {"cfg": list(CFGS[0]), "ops": [
                     op_write(tmo=tmo, frames=pre + [okack], delay=d), op_read(200), op_write(frames=[okack], delay=5),
                     op_read(200)]}))
     for d in (1, 299, 301, 900):
         for tmo in (300, 1000):
             for pre in ([], [["alive", ""]], [["diag", tgt + 1, src, "7f01"]], [okack]):
-                scripts.append(("timing:read", {"cfg": list(CFGS[0]), "ops": [
+                yield (("timing:read", {"cfg": list(CFGS[0]), "ops": [
                     op_read(tmo, frames=pre + [["diag", tgt, src, "6202"]], delay=d), op_read(200),
                     op_write(frames=[okack], delay=5), op_read(200)]}))
     # alive checks spread over the phases of one exchange
     for ds in itertools.product((50, 700), repeat=3):
-        scripts.append(("alive:phases", {"cfg": list(CFGS[0]), "ops": [
+        yield (("alive:phases", {"cfg": list(CFGS[0]), "ops": [
             op_idle([["alive", ""]], ds[0]),
             op_write(frames=[["alive", ""], okack, ["alive", ""]], delay=ds[1], cuts=[[8, ds[1] + 100], [24, ds[1] + 200]]),
             op_read(2000, frames=[["alive", ""], ["diag", tgt, src, "62f190aa"]], delay=ds[2], cuts=[[8, ds[2] + 300]]),
@@ -555,7 +547,7 @@ def gen_scripts(ctx):
     for b in bad:
         for pre in ([], [["diag", tgt + 1, src, "7f01"]], [["alive", ""]], [["diag", tgt, src, "6203"]]):
             for pos in POSITIONS:
-                scripts.append(("reader-ends:" + pos, template(pre + [b] + [okack], pos, CFGS[0])))
+                yield (("reader-ends:" + pos, template(pre + [b] + [okack], pos, CFGS[0])))
 
     # 5b. codec: frames of the dispatched payload types with arbitrary (mostly short / boundary) payloads, idle
     for _ in range(ctx.pick(400, 4000)):
@@ -570,35 +562,34 @@ def gen_scripts(ctx):
             v = cfg[2]
             inv = (v ^ 0xFF) if rng.random() < 0.95 else rng.randrange(256)
             fr.append(["raw", v, inv, pt, n, pl.hex()])
-        scripts.append(("codec-fuzz", {"cfg": list(cfg), "ops": [op_idle(fr, 10), op_read(200),
+        yield (("codec-fuzz", {"cfg": list(cfg), "ops": [op_idle(fr, 10), op_read(200),
                                                                 op_write(frames=[["ackp", cfg[1], cfg[0], ""]], delay=5)]}))
 
     # 6. connect: activation request layout for all 256 activation types x versions x addresses; response codes
     for at in range(256):
         for ver in (1, 2, 3, 0, 0xFF) if not ctx.quick or at % 16 in (0, 1, 2) or at >= 0xE0 else (3, 2):
             s_, t_ = rng.choice([(0x0E00, 0x001D), (0, 0xFFFF), (0xFFFF, 0), (0x1234, 0xABCD)])
-            scripts.append(("connect:activation-type", {"cfg": [s_, t_, ver], "ops": [
+            yield (("connect:activation-type", {"cfg": [s_, t_, ver], "ops": [
                 {"op": "connect", "atype": at, "tmo": 5000, "frames": [["rar", s_, t_, 0x10]], "delay": 20},
                 op_write(frames=[["ackp", t_, s_, ""]], delay=5)]}))
-    scripts.append(("connect:defaults", {"cfg": [0x0E00, 0x1D, 3], "ops": [
+    yield (("connect:defaults", {"cfg": [0x0E00, 0x1D, 3], "ops": [
         {"op": "connect", "atype": None, "tmo": 5000, "frames": [["rar", 0x0E00, 0x1D, 0x10]], "delay": 20}]}))
     for code in range(256):
         pre = rng.choice([[], [["alive", ""]], [["diag", tgt, src, "6204"]], [["unk", 0x4002, "00"]], [okack]])
         post = rng.choice([[], [["rar", src, tgt, 0x10]], [["diag", tgt, src, "6205"]]])
         cuts = rng.choice([None, [[rng.randint(1, 16), 60]]])
-        scripts.append(("connect:response-code", {"cfg": list(CFGS[0]), "ops": [
+        yield (("connect:response-code", {"cfg": list(CFGS[0]), "ops": [
             {"op": "connect", "atype": 0, "tmo": 5000, "frames": pre + [["rar", rng.choice([src, 7]), tgt, code]] + post,
              "delay": 20, "cuts": cuts},
             op_read(200), op_write(frames=[okack], delay=5)]}))
     for d in (1999, 2001):
         for tmo in (1000, 5000):
-            scripts.append(("connect:timing", {"cfg": list(CFGS[0]), "ops": [
+            yield (("connect:timing", {"cfg": list(CFGS[0]), "ops": [
                 {"op": "connect", "atype": 0, "tmo": tmo, "frames": [["alive", ""], ["rar", src, tgt, 0x10]], "delay": d},
                 op_read(200)]}))
-    scripts.append(("connect:timing", {"cfg": list(CFGS[0]), "ops": [{"op": "connect", "atype": 0, "tmo": 5000}]}))
+    yield (("connect:timing", {"cfg": list(CFGS[0]), "ops": [{"op": "connect", "atype": 0, "tmo": 5000}]}))
     ctx.exhaustive_parts.append("routing activation request bytes for all 256 activation types (x protocol versions "
                                 "{0,1,2,3,255}, boundary addresses); all 256 routing activation response codes")
-    return scripts
 
 
 # --------------------------------------------------------------------------------------------------------------
@@ -664,53 +655,69 @@ def run(ctx):
     ctx.rule = ("scripts = (source, target, version) + client operations (connect / write / read / idle), each with the "
                 "gateway frames arriving while it is in progress; distinct = distinct (script, segmentation); non-trivial "
                 "= at least one gateway frame arrives")
-    labelled = gen_scripts(ctx)
-    scripts = [s for _, s in labelled]
-
-    # implementation
-    if len(scripts) > 40000:
+    pool = None
+    if not ctx.quick or ctx.widened:
         import multiprocessing as mp
 
-        with mp.get_context("fork").Pool(min(16, mp.cpu_count())) as pool:
-            parts = pool.map(_worker, _chunks(scripts, 64))
-        impl = [r for p in parts for r in p]
-    else:
-        impl = [run_impl(s) for s in scripts]
-    # model
-    model = run_model_batch(ctx, scripts)
-
+        pool = mp.get_context("fork").Pool(min(16, mp.cpu_count() or 1))
     seen_aspects = {}
-    for (label, s), a, b in zip(labelled, impl, model):
-        ctx.ev()
-        ctx.kind(label)
-        if any(op.get("frames") for op in s["ops"]):
-            ctx.nontrivial(json.dumps(s, sort_keys=True))
-        for r in a:
-            ctx.kind("result:" + r["res"].split()[0].split(":")[0])
-        if a != b:
-            j = judge(s, a, b)
-            if j is None:
-                continue
-            seen_aspects.setdefault(j[0], []).append((s, j))
-    ctx.traces_validated += len(scripts)
-    for k in (0, len(labelled) // 3, len(labelled) - 300):
-        if 0 <= k < len(labelled):
-            ctx.sample({"label": labelled[k][0], "script": shape(labelled[k][1]), "impl": [r["res"] for r in impl[k]]})
+    total = 0
 
-    for aspect, cases in seen_aspects.items():
+    def process(labelled):
+        nonlocal total
+        scripts = [s for _, s in labelled]
+        if pool is not None and len(scripts) > 2000:
+            parts = pool.map(_worker, _chunks(scripts, 64))
+            impl = [r for p in parts for r in p]
+        else:
+            impl = [run_impl(s) for s in scripts]
+        model = run_model_batch(ctx, scripts)
+        for (label, s), a, b in zip(labelled, impl, model):
+            ctx.ev()
+            ctx.kind(label)
+            if any(op.get("frames") for op in s["ops"]):
+                ctx.nontrivial(json.dumps(s, sort_keys=True))
+            for r in a:
+                ctx.kind("result:" + r["res"].split()[0].split(":")[0])
+            if a != b:
+                j = judge(s, a, b)
+                if j is not None:
+                    lst = seen_aspects.setdefault(j[0], [0, []])
+                    lst[0] += 1
+                    lst[1].append((s, j))
+                    lst[1].sort(key=lambda c: (len(json.dumps(c[0])), json.dumps(c[0], sort_keys=True)))
+                    del lst[1][3:]
+        if total == 0 and len(labelled) > 700:
+            for k in (5, 300, 700):
+                ctx.sample({"label": labelled[k][0], "script": shape(labelled[k][1]), "impl": [r["res"] for r in impl[k]]})
+        total += len(scripts)
+        ctx.traces_validated += len(scripts)
+
+    try:
+        batch = []
+        for item in gen_scripts(ctx):
+            batch.append(item)
+            if len(batch) >= 40000:
+                process(batch)
+                batch = []
+        if batch:
+            process(batch)
+    finally:
+        if pool is not None:
+            pool.terminate()
+            pool.join()
+
+    for aspect, (count, cases) in seen_aspects.items():
         # shrink the smallest few, report distinct shapes
-        cases.sort(key=lambda c: len(json.dumps(c[0])))
-        done = 0
         for s, j in cases[:3]:
             small = shrink(ctx, s, aspect)
             ia = run_impl(small)
             mb = run_model_batch(ctx, [small])[0]
             j2 = judge(small, ia, mb) or j
-            ctx.disagree(f"doip:{aspect}:{shape(small)}", f"{j2[2]} [{len(cases)} scripts differ in this aspect]",
+            ctx.disagree(f"doip:{aspect}:{shape(small)}", f"{j2[2]} [{count} scripts differ in this aspect]",
                          small, impl=ia, model=mb, spec_violated=bool(j2[1]),
                          site="gallia.transports.doip.DoIPConnection / DoIPTransport")
-            done += 1
-    ctx.notes["scripts"] = len(scripts)
+    ctx.notes["scripts"] = total
 
 
 def replay(ctx, case):
@@ -744,7 +751,7 @@ MANIFEST = {
                    "tree with the concrete witness. Payload types, codes, timing parameters, struct formats, dispatch list and "
                    "enum _missing_ tables are regenerated from the code on every run and tied by agreement theorems. "
                    "Correspondence: real DoIPConnection / DoIPTransport over in-memory streams under virtual time on all frame "
-                   "sequences up to length 4 (quick) / 5 + sampled 6 (thorough) over the gateway alphabet x 4 injection "
+                   "sequences up to length 4 (quick) / 6 (thorough) over the gateway alphabet x 4 injection "
                    "positions, every single split point of short streams, seeded multi-splits, timing around the "
                    "acknowledgement time, malformed frames, all 256 activation types and response codes."),
     "level_note": ("Trusted: Lean kernel (axioms propext, Quot.sound, Classical.choice), asyncio contracts (StreamReader."
